@@ -29,7 +29,7 @@ func init() {
 		}})
 	register(ruleDef{ID: "R17.4", Prop: "C17", Tier: "quick", Floor: 1,
 		Title: "slice position inside a block is defined below z = 0 (imageblk bulk load; same rule as R18.8)",
-		Fn:    func(r *Run) { ruleSignedRem(r, []string{"datatype/imageblk"}, 1) }})
+		Fn:    func(r *Run) { ruleSignedRem(r, []string{"datatype/imageblk", "dvid"}, 8) }})
 }
 
 func coordKey(v ssa.Value) string {
@@ -152,6 +152,25 @@ func ruleSignedRem(r *Run, pkgs []string, floor int) {
 				bt, ok := bo.X.Type().Underlying().(*types.Basic)
 				if !ok || bt.Info()&types.IsInteger == 0 || bt.Info()&types.IsUnsigned != 0 {
 					continue
+				}
+				// a quotient taken where a coordinate is known negative must be the floor idiom (p - s + 1) / s
+				if bo.Op == token.QUO {
+					handled := false
+					for _, leaf := range rootsOfLin(stripConv(bo.X)) {
+						if kind, _, isAxis := axisOf(leaf); !isAxis || kind == "bs" || !negAt(leaf, bo) {
+							continue
+						}
+						handled = true
+						n++
+						k++
+						form := linCK(bo.X, 0).add(linCK(leaf, 0), -1).add(linCK(bo.Y, 0), 1)
+						r.check(form.ok && len(form.terms) == 0 && form.c == 1, fmt.Sprintf("%s:coordinate-quotient#%d:floor-idiom", fname(f), k),
+							"under `coordinate < 0` the quotient is (p - s + 1) / s",
+							"where the coordinate is known negative the block coordinate is not computed as (p − s + 1) / s: for negative coordinates (in particular exact multiples of the block size) the result is the wrong block", w.pos(bo.Pos()))
+					}
+					if handled {
+						continue
+					}
 				}
 				// dividend: a coordinate, possibly ±const
 				div := stripConv(bo.X)
@@ -436,4 +455,26 @@ func spanAxisEqualAt(f *ssa.Function, axis int, b *ssa.BasicBlock) bool {
 		}
 	}
 	return false
+}
+
+// linCK: additive linear form whose atoms are access-path keys (so that two loads of size[0] cancel).
+func linCK(v ssa.Value, d int) linForm {
+	v = stripConv(v)
+	if d > 8 {
+		return linForm{}
+	}
+	switch x := v.(type) {
+	case *ssa.Const:
+		if k, ok := constInt(x); ok {
+			return linConst(k)
+		}
+	case *ssa.BinOp:
+		switch x.Op {
+		case token.ADD:
+			return linCK(x.X, d+1).add(linCK(x.Y, d+1), 1)
+		case token.SUB:
+			return linCK(x.X, d+1).add(linCK(x.Y, d+1), -1)
+		}
+	}
+	return linAtom(coordKey(v))
 }
